@@ -38,13 +38,29 @@ _KEY = None
 _CERTS = {}
 
 
+_E = x509.oid.ExtendedKeyUsageOID
+# every standard extended key usage, anyExtendedKeyUsage and an OID nobody knows
+EKU_OIDS = {'server': _E.SERVER_AUTH, 'client': _E.CLIENT_AUTH, 'code': _E.CODE_SIGNING, 'email': _E.EMAIL_PROTECTION,
+            'time': _E.TIME_STAMPING, 'ocsp': _E.OCSP_SIGNING, 'any': x509.ObjectIdentifier('2.5.29.37.0'),
+            'unknown': x509.ObjectIdentifier('1.3.6.1.4.1.55555.7.1')}
+
+
+def eku_kind(eku):
+    """What the property cares about: 'absent' (no extension), 'client' (clientAuth listed), 'noclient' (anything else -
+    anyExtendedKeyUsage does not count: the certificate must CARRY the client-authentication usage)."""
+    if isinstance(eku, str):
+        return {'absent': 'absent', 'server': 'noclient', 'client': 'client', 'both': 'client'}[eku]
+    return 'client' if 'client' in eku[1] else 'noclient'
+
+
 def make_cert(cns, eku, layout=None):
-    """DER certificate with the given common names; eku in {'absent', 'server', 'client', 'both'}.
+    """DER certificate with the given common names; eku in {'absent', 'server', 'client', 'both'} or
+    ('set', (names from EKU_OIDS...), critical).
     layout (optional): the subject as a list of RDNs, each a list of 'CN:<value>' / 'O:<value>' / 'OU:<value>' - lets the
     same number of common names be encoded in every way X.509 allows (several CNs in ONE multi-valued RDN, a CN sharing
     its RDN with another attribute, the CN not in the first RDN).  Without layout every CN is an RDN of its own."""
     global _KEY
-    k = (tuple(cns), eku, repr(layout))
+    k = (tuple(cns), repr(eku), repr(layout))
     if k in _CERTS:
         return _CERTS[k]
     if _KEY is None:
@@ -60,10 +76,14 @@ def make_cert(cns, eku, layout=None):
     t = datetime.datetime(2020, 1, 1)
     b = (x509.CertificateBuilder().serial_number(1).issuer_name(name).subject_name(name)
          .not_valid_before(t).not_valid_after(t + datetime.timedelta(days=36500)).public_key(_KEY.public_key()))
-    O = x509.oid.ExtendedKeyUsageOID
-    usages = {'absent': None, 'server': [O.SERVER_AUTH], 'client': [O.CLIENT_AUTH], 'both': [O.SERVER_AUTH, O.CLIENT_AUTH]}[eku]
+    if isinstance(eku, str):
+        usages = {'absent': None, 'server': [EKU_OIDS['server']], 'client': [EKU_OIDS['client']],
+                  'both': [EKU_OIDS['server'], EKU_OIDS['client']]}[eku]
+        critical = True
+    else:                                   # ('set', (usage names...), critical)
+        usages, critical = [EKU_OIDS[n] for n in eku[1]], bool(eku[2])
     if usages is not None:
-        b = b.add_extension(x509.ExtendedKeyUsage(usages), True)
+        b = b.add_extension(x509.ExtendedKeyUsage(usages), critical)
     der = b.sign(_KEY, hashes.SHA256(), default_backend()).public_bytes(serialization.Encoding.DER)
     _CERTS[k] = der
     return der
@@ -284,7 +304,7 @@ def default_spec(stream, sizes=None, cert=GOOD_CERT, tls=True, plugins=(), ts=16
             'cert': cert, 'tls': tls, 'plugins': list(plugins), 'ts': ts}
 
 
-def run_spec(proxy, spec, dumps=True, settings_from=None):
+def run_spec(proxy, spec, dumps=True, settings_from=None, tls_from=None):
     """Run one scripted connection against the real session; returns (obs, conn)."""
     cert = make_cert(list(spec['cert'][0]), spec['cert'][1], spec['cert'][2] if len(spec['cert']) > 2 else None) if spec['cert'] is not None else None
     conn = FakeConn(spec['stream'], spec['sizes'], cert)
@@ -308,7 +328,9 @@ def run_spec(proxy, spec, dumps=True, settings_from=None):
         settings = settings_from(settings)
     proxy.eng.clock.t = spec['ts']
     stub = SlugsStub(script, phases=scripts if nph else None)
-    obs = run_connection(proxy, conn, tls_client_auth=spec['tls'], auth_settings=settings, slugs=stub, dumps=dumps)
+    # spec['tls'] is what the configuration MEANS; tls_from (if given) yields what the loaded server settings hand over
+    tls = spec['tls'] if tls_from is None else tls_from()
+    obs = run_connection(proxy, conn, tls_client_auth=tls, auth_settings=settings, slugs=stub, dumps=dumps)
     obs['recv_sizes'] = list(conn.recv_sizes)
     obs['slugs_calls'] = list(stub.calls)
     obs['parse'] = [real_parse(f['frame']) if f['frame'] is not None else None for f in obs['frames']]
@@ -331,7 +353,7 @@ def coq_cert(cert):
     if cert is None:
         return 'None'
     cns, eku = cert[0], cert[1]
-    k = {'absent': 'EkuAbsent', 'server': 'EkuNoClient', 'client': 'EkuClient', 'both': 'EkuClient'}[eku]
+    k = {'absent': 'EkuAbsent', 'noclient': 'EkuNoClient', 'client': 'EkuClient'}[eku_kind(eku)]
     return '(Some {| c_cns := %s; c_eku := %s |})' % (cq.lst(cns, cq.string), k)
 
 
